@@ -275,6 +275,16 @@ def run(P, C, tier):
             oks = [dv for dv in (mir.discr_variants(term, vals) for s, vals, term in g) if dv and dv[1] == ["Ok"]]
             wrote = any(field_path(dv[0]).split(".")[-1] in ("result", "res", "0") or term_str(dv[0]).startswith("msg") for dv in oks)
             valid = any(mir.has_call(dv[0], r"(validate_mutation|RoomNode::parse)$") for dv in oks)
+            # `write_result.and_then(|_| room.parse())`: one Ok edge stands for both (the closure runs only when the write succeeded)
+            for dv in oks:
+                c_ = mir.has_call(dv[0], r"Result.*::and_then$")
+                if c_ is not None and len(c_[2]) == 2:
+                    clo = strip_refs(c_[2][1])
+                    cb_ = P.bodies.get(clo[2]) if clo[0] == "aggr" and clo[1] == "closure" else None
+                    if cb_ is not None and cb_.calls_to(r"(validate_mutation|RoomNode::parse)$"):
+                        valid = True
+                        if mir.strip(c_[2][0])[0] in ("var", "param", "field", "upvar", "downcast"):
+                            wrote = True
             C.ob("R5", "add_room:%d" % pm.line_of(bi) if False else "add_room:" + arm_of(pm, bi), wrote and valid, pm.loc(bi),
                  "in-memory rights replaced only after the write succeeded (%s) and the definition validated again (%s)" % (wrote, valid))
     except mir.MissingAnchor as e:
